@@ -156,4 +156,48 @@ func rulesC03(e *Engine, r *Report) {
 		r.Check(bad == 0 && loops >= 3, "R03.4", "stage.(*Stage).Recover: loops run to completion", e.Pos(fn.Pos()),
 			fmt.Sprintf("%d return(s) inside the recovery loops: the rest of the list would be stranded", bad), loops, fmt.Sprintf("%d loop blocks, none returns", loops))
 	}
+	// ---------------------------------------------------------------- R03.5
+	r.Rule("R03.5", "a file that failed validation can be received again: its complete companion is discarded before new parts are recorded - either the validator removes the companion on every failure path, or the stage-file initialiser removes it on every path where the cached state is `failed` (otherwise the first re-sent part completes the stale record, the file fails again, for ever)")
+	{
+		failedC, _ := e.ConstVal("stage", "stateFailed")
+		optA, optB := false, false
+		var factsA, factsB []string
+		if fn := e.Fn("stage.(*Stage).process"); fn != nil {
+			cls := labeler(I(`call(os.Remove)((p1.path + ".cmp"))`, "cmpRemoved"))
+			res := e.Flow(fn, FlowOpts{Classify: cls, Target: e.instrMatch("call(stage.(*Stage).toCache)(p0, p1, " + failedC + ")")})
+			n, good := 0, 0
+			for _, ws := range res.At {
+				for _, w := range ws {
+					n++
+					if w.Has("cmpRemoved") {
+						good++
+					}
+				}
+			}
+			optA = n > 0 && good == n && !res.Undecided
+			factsA = append(factsA, fmt.Sprintf("validator: %d of %d failure paths remove the companion", good, n))
+		}
+		if fn := needFn(e, r, "R03.5", "stage.(*Stage).initStageFile"); fn != nil {
+			edges := e.ifEdges(fn, "(call(stage.(*Stage).getFileState)(p0, p1) == "+failedC+")")
+			cls := labeler(I(`call(os.Remove)((p1 + ".cmp"))`, "cmpRemoved"))
+			okAll := len(edges) > 0
+			for _, ed := range edges {
+				res := e.Flow(fn, FlowOpts{Classify: cls, Target: e.instrMatch(`call(os.Create)((p1 + ".part"))`), StartEdge: ed.B, StartSucc: ed.Succ})
+				for _, ws := range res.At {
+					for _, w := range ws {
+						if !w.Has("cmpRemoved") {
+							okAll = false
+						}
+					}
+				}
+				if res.Undecided {
+					okAll = false
+				}
+			}
+			optB = okAll
+			factsB = append(factsB, fmt.Sprintf("initStageFile: %d `state == failed` edge(s), all reach the partial's creation through Remove[Cmp]: %v", len(edges), okAll))
+			r.Check(optA || optB, "R03.5", "stage: companion of a failed file is discarded before re-reception", e.Pos(fn.Pos()),
+				"neither the validator (on every failure path) nor initStageFile (on every state==failed path) removes the stale companion: a re-sent file completes at its first part and fails validation for ever", 2, append(factsA, factsB...)...)
+		}
+	}
 }
